@@ -21,6 +21,10 @@ Explains(cfg, e) ==
       [] c.op = "find_all" ->
            /\ r.st = "ok"
            /\ r.v = Occ(cfg.p, c.a.t)
+      [] c.op = "find_all_comb" ->      \* text (a^(L-1) b)^r given by parameters; pattern must be a^m b
+           /\ r.st = "ok"
+           /\ c.a.m < c.a.L /\ cfg.p = CombPattern(c.a.m, c.a.a, c.a.b)
+           /\ r.v = CombOcc(c.a.L, c.a.r, c.a.m)
       [] OTHER -> FALSE
 
 Init == run \in 1..Len(Rec) /\ idx = 0 /\ ok = TRUE
